@@ -26,7 +26,9 @@ CLAIMED = {
                 "history steps between constructions. Real constructions run in child processes whose file-system calls are interposed; "
                 "the parent schedules them one call at a time and kills them before/after/midway the k-th call (every k for the single "
                 "writer, seeded for 1-8 concurrent writers); in half of the histories process p is ONE long-lived OS process that constructs the "
-                "Template again and again (every sequence of <= 2 history steps between its constructions); after every event the module path on disk is projected and the whole trace "
+                "Template again and again (every sequence of <= 2 history steps between its constructions); the writing calls are also made to "
+                "FAIL with OSError (Fail/Raise actions: the process lives on and its clean-up code runs); the entry points leading to one "
+                "module path rotate (Template module_directory= / module_filename=, TemplateLookup module_directory= / modulename_callable=); after every event the module path on disk is projected and the whole trace "
                 "is validated by Trace_ModuleFile.tla with the invariants evaluated after every event; TLC -simulate behaviours are "
                 "replayed as schedules on real child processes. Bounded model checking plus conformance, not a proof.",
         "note": "Trusts TLC, the interposers in harness/modfile_child.py (os.stat, os.path.exists, os.open, os.write, os.close, os.rename/replace, "
